@@ -1,6 +1,8 @@
 import CkbVerif.Props.C01
 import CkbVerif.Lemmas.Restart
+import CkbVerif.Lemmas.RestartView
 import CkbVerif.Gen.Restart
+import CkbVerif.Gen.Window
 
 /-!
 # C08 — a crash at any point of block import recovers to a consistent, convergent state
@@ -506,6 +508,237 @@ example : (wFinal 1800).tipTd = (run wTree (init wTree) wRef).tipTd := by
       have : delivered wRef = delivered wPre ++ delivered wMore := delivered_append wPre wMore
       rw [this]; exact List.mem_append_right _ hb)
     (by decide) hwin hmiss (by decide +kernel) (by decide +kernel) (by decide +kernel) (by decide +kernel)).1
+
+/-! ## The proposal table and the proposal view across a restart
+
+`Model/RestartView.lean`: every block carries its own proposals zone and the zones of its embedded uncles;
+the running process keeps a `Window.Node` (proposal table + `ProposalView`) that follows the pipeline's tip
+by `Window.switch` at the fork point (`update_proposal_table` + `reload_proposal_table` + `finalize`, as
+`verify_block` runs them), a process death loses it and the next process rebuilds it with
+`init_proposal_table` AS WRITTEN (`Window.init`: walk of the numbers `tip − w_far ..= tip` of the persisted
+main chain, one `insert` of the block's `union_proposal_ids` — own AND uncles' — per number, `finalize`).
+`Lemmas/Window.lean` (C20) supplies the table-level facts (`Inv.init`, `Inv.switch`, `finalize_spec`); the
+statements below are about the state after a CRASH AT ANY COMMIT POINT of the pipeline. -/
+
+section RestartView
+open CkbVerif.Window CkbVerif.RestartView
+
+/-- extended states (pipeline + proposal table) reachable from the first start by any operation sequence:
+deliveries in any order, verifications, expiry ticks, crashes (each followed by the start-up
+reconstruction), the start-up scan's deliveries -/
+def XReachable (w : Win) (P : Props) (T : Tree) (x : XState) : Prop :=
+  ∃ ops, x = xrun w P T (xinit w P T) ops
+
+/-- **proposal_view_eq_window_every_state**: in every reachable state — whatever was delivered, however the
+chain was reorganised, however often the process died — the running process's `ProposalView` is exactly the
+on-chain proposal window of the pipeline's tip: `set` = the union (own and uncles') ids of the main-chain
+blocks at distance `w_close ..= w_far` from the next block, `gap` = those closer; and its table is accurate
+for, and covers, the last `w_far` blocks. -/
+theorem proposal_view_eq_window_every_state {w : Win} (hw : WinOk w) (P : Props) (T : Tree) {x : XState}
+    (h : XReachable w P T x) :
+    x.pv.chain = chainIds P T x.st.tip ∧
+    (∀ i, i ∈ x.pv.view.set ↔ InSet w (chainIds P T x.st.tip) i) ∧
+    (∀ i, i ∈ x.pv.view.gap ↔ InGap w (chainIds P T x.st.tip) i) ∧
+    Acc (chainIds P T x.st.tip) x.pv.table ∧ Cov w (chainIds P T x.st.tip) x.pv.table := by
+  obtain ⟨ops, rfl⟩ := h
+  have i := xinv_run hw P T ops _ (xinv_xinit hw P T)
+  have hv := i.inv.view
+  have ha := i.inv.acc
+  have hc := i.inv.cov
+  rw [i.chain] at hv ha hc
+  exact ⟨i.chain, hv.1, hv.2, ha, hc⟩
+
+/-- **init_eq_incremental**: take ANY history (attaches, detaches by reorganisation of any depth, uncles
+anywhere, earlier crashes) and let the process die now. The table and the view that `init_proposal_table`
+rebuilds from the persisted main chain equal what the process had maintained incrementally (insert per
+attached block, removal of the detached numbers, `reload_proposal_table`, `finalize`): the same `set`, the
+same `gap` (as sets), and both tables hold exactly the main chain's `union_proposal_ids` on every number of
+the window `tip + 1 − w_far ..= tip` (rows outside it are never read again: `finalize` splits them off).
+So the restart is invisible in the proposal state, at every reachable state. -/
+theorem init_eq_incremental {w : Win} (hw : WinOk w) (P : Props) (T : Tree) {x : XState}
+    (h : XReachable w P T x) :
+    (∀ i, i ∈ (initAt w P T x.st.tip).view.set ↔ i ∈ x.pv.view.set) ∧
+    (∀ i, i ∈ (initAt w P T x.st.tip).view.gap ↔ i ∈ x.pv.view.gap) ∧
+    (∀ n ids, (n, ids) ∈ (initAt w P T x.st.tip).table → (chainIds P T x.st.tip)[n]? = some ids) ∧
+    (∀ n ids, (n, ids) ∈ x.pv.table → (chainIds P T x.st.tip)[n]? = some ids) ∧
+    (∀ n, 1 ≤ n → n < (chainIds P T x.st.tip).length → (chainIds P T x.st.tip).length ≤ n + w.far →
+      HasKey (initAt w P T x.st.tip).table n ∧ HasKey x.pv.table n) := by
+  obtain ⟨_, hs, hg, ha, hc⟩ := proposal_view_eq_window_every_state hw P T h
+  have j := Inv.init hw (chainOk_chainIds P T x.st.tip)
+  have jv : ViewOk w (chainIds P T x.st.tip) (initAt w P T x.st.tip).view := j.view
+  refine ⟨fun i => by rw [jv.1 i, hs i], fun i => by rw [jv.2 i, hg i], j.acc, ha, fun n h1 h2 h3 => ?_⟩
+  exact ⟨j.cov n h1 h2 h3, hc n h1 h2 h3⟩
+
+theorem stepPool_tip (T : Tree) (pool0 : List Nat) (acc : State × Out) (c : Nat) :
+    (stepPool T pool0 acc c).1.tip = acc.1.tip := by
+  have hact := stepPool_act T pool0 acc c
+  generalize stepPool T pool0 acc c = r at hact ⊢
+  cases hact <;> rfl
+
+/-- a crash INSIDE a delivery (after the `insert_block` commit, after any number of the orphan search's
+deletions) leaves the persisted tip where it was -/
+theorem midDeliver_tip (T : Tree) (s : State) (b : Nat) (cands : List Nat) :
+    (crash (midDeliver T s b cands)).tip = s.tip := by
+  show (midDeliver T s b cands).tip = s.tip
+  unfold midDeliver
+  exact foldl_preserves (stepPool T _) (fun acc => acc.1.tip = s.tip)
+    (fun acc c h => (stepPool_tip T _ acc c).trans h) _ _ (route_sameChain T _ b).2.2.1
+
+/-- **restart_view_eq_at_every_commit**: the crash points between the commits of one delivery. The process
+dies after `insert_block(b)` committed, or after any prefix of the deletions of the orphan search; the
+proposal state the next process rebuilds equals the one a process that did NOT die holds at that point
+(it has not moved its tip either: a delivery commits no main-chain change). Together with
+`init_eq_incremental` (crash between two operations; a `verify` is a single all-or-nothing commit) this
+covers every commit point of the pipeline. -/
+theorem restart_view_eq_at_every_commit {w : Win} (hw : WinOk w) (P : Props) (T : Tree) {x : XState}
+    (h : XReachable w P T x) (b : Nat) (cands : List Nat) :
+    (∀ i, i ∈ (initAt w P T (crash (midDeliver T x.st b cands)).tip).view.set ↔ i ∈ x.pv.view.set) ∧
+    (∀ i, i ∈ (initAt w P T (crash (midDeliver T x.st b cands)).tip).view.gap ↔ i ∈ x.pv.view.gap) := by
+  rw [midDeliver_tip]
+  exact ⟨(init_eq_incremental hw P T h).1, (init_eq_incremental hw P T h).2.1⟩
+
+/-- **recovered_view_eq_never_crashed**: two histories — one with crashes and restarts, one without — that
+end on the same tip hold the same proposal view (as sets) -/
+theorem recovered_view_eq_never_crashed {w : Win} (hw : WinOk w) (P : Props) (T : Tree) {x y : XState}
+    (hx : XReachable w P T x) (hy : XReachable w P T y) (ht : x.st.tip = y.st.tip) :
+    (∀ i, i ∈ x.pv.view.set ↔ i ∈ y.pv.view.set) ∧ (∀ i, i ∈ x.pv.view.gap ↔ i ∈ y.pv.view.gap) := by
+  obtain ⟨_, xs, xg, _, _⟩ := proposal_view_eq_window_every_state hw P T hx
+  obtain ⟨_, ys, yg, _, _⟩ := proposal_view_eq_window_every_state hw P T hy
+  rw [ht] at xs xg
+  exact ⟨fun i => by rw [xs i, ys i], fun i => by rw [xg i, yg i]⟩
+
+/-- **recovered_state_eq_never_crashed_partial**: the property's last clause, for the part of the state that
+is modelled. `ops` is ANY history with crashes at any points (repeated), restarts' re-deliveries, any
+interleaving, delivering only blocks of `D` and in whose final state every block of `D` was received after
+the last crash or had an ext at it; `ops0` is a crash-free history delivering exactly `D`. Both end
+quiescent without an orphan expiry, and the heaviest fully valid chain inside `D` is unique. Then the
+recovered node and the never-crashed node agree on: the tip, the total difficulty, the `ProposalView`
+(`set` and `gap`, as sets, including the ids that only uncles propose), the proposal table on the window;
+and both persisted states satisfy the persisted chain invariant `PInv` (the tip's ext is verified and
+carries the true accumulated work, verified blocks are ancestor-closed and fully valid).
+PARTIAL — not in this model, checked by the harness against a replay of the stored main chain and a
+never-crashed reference node instead: the cell set and the indexes (C02's replay equality), the current
+epoch ext in the snapshot and in the store (C07), `get_block_status` of every block (the status map's
+BLOCK_INVALID entries are volatile: a restarted node has forgotten them by design until the block is
+delivered again). `Shared::unverified_tip` is scheduling-dependent even between two never-crashed runs and
+is not compared. Without the uniqueness hypothesis only the total difficulty is determined (two heaviest
+chains: the first verified wins). -/
+theorem recovered_state_eq_never_crashed_partial {w : Win} (hw : WinOk w) (P : Props) (T : Tree)
+    (D : List Nat) (ops ops0 : List Op)
+    (hc0 : crashFree ops0) (hD0 : ∀ b, b ∈ delivered ops0 ↔ b ∈ D)
+    (hsub : ∀ b, b ∈ delivered ops → b ∈ D)
+    (hall : ∀ b ∈ D, b ≠ 0 → (run T (init T) ops).seen b = true)
+    (hq : Quiescent (run T (init T) ops)) (hq0 : Quiescent (run T (init T) ops0))
+    (hx : (run T (init T) ops).expiryFired = false) (hx0 : (run T (init T) ops0).expiryFired = false)
+    (huniq : ∀ b, ChainIn T (fun x => x ≠ 0 ∧ x ∈ D) b → TD T b (run T (init T) ops0).tipTd →
+        b = (run T (init T) ops0).tip) :
+    (xrun w P T (xinit w P T) ops).st.tip = (xrun w P T (xinit w P T) ops0).st.tip ∧
+    (xrun w P T (xinit w P T) ops).st.tipTd = (xrun w P T (xinit w P T) ops0).st.tipTd ∧
+    (∀ i, i ∈ (xrun w P T (xinit w P T) ops).pv.view.set ↔ i ∈ (xrun w P T (xinit w P T) ops0).pv.view.set) ∧
+    (∀ i, i ∈ (xrun w P T (xinit w P T) ops).pv.view.gap ↔ i ∈ (xrun w P T (xinit w P T) ops0).pv.view.gap) ∧
+    (∀ n, 1 ≤ n → n < (chainIds P T (run T (init T) ops0).tip).length →
+      (chainIds P T (run T (init T) ops0).tip).length ≤ n + w.far →
+      ∃ ids, (n, ids) ∈ (xrun w P T (xinit w P T) ops).pv.table ∧
+             (n, ids) ∈ (xrun w P T (xinit w P T) ops0).pv.table) ∧
+    PInv T (crash (run T (init T) ops)) ∧ PInv T (crash (run T (init T) ops0)) := by
+  have hst : ∀ o, (xrun w P T (xinit w P T) o).st = run T (init T) o := fun o => xrun_st w P T o _
+  obtain ⟨htd, htip⟩ := crash_convergence T D ops ops0 hc0 hD0 hsub hall hq hq0 hx hx0
+  have ht := htip huniq
+  have hxr : XReachable w P T (xrun w P T (xinit w P T) ops) := ⟨ops, rfl⟩
+  have hyr : XReachable w P T (xrun w P T (xinit w P T) ops0) := ⟨ops0, rfl⟩
+  have hv := recovered_view_eq_never_crashed hw P T hxr hyr (by rw [hst, hst]; exact ht)
+  refine ⟨by rw [hst, hst]; exact ht, by rw [hst, hst]; exact htd, hv.1, hv.2, ?_,
+    (persisted_inv_every_commit T _ ⟨ops, rfl⟩).1, (persisted_inv_every_commit T _ ⟨ops0, rfl⟩).1⟩
+  intro n h1 h2 h3
+  obtain ⟨_, _, _, xa, xc⟩ := proposal_view_eq_window_every_state hw P T hxr
+  obtain ⟨_, _, _, ya, yc⟩ := proposal_view_eq_window_every_state hw P T hyr
+  rw [hst] at xa xc ya yc
+  rw [ht] at xa xc
+  obtain ⟨i1, m1⟩ := xc n h1 h2 h3
+  obtain ⟨i2, m2⟩ := yc n h1 h2 h3
+  have e1 := xa n i1 m1
+  have e2 := ya n i2 m2
+  rw [e1] at e2
+  cases e2
+  exact ⟨i1, m1, m2⟩
+
+/-! ### Witness: start-up must read the uncles' zones
+
+Chain 1 ← 2 ← 3 (window (2, 4)); block 1 proposes id 1 itself, block 2 proposes nothing itself and embeds an
+uncle whose zone holds id 7, block 3 proposes id 3. The running node has 7 in `set` (block 2 is at distance 2
+from the next block); `init_proposal_table` as written rebuilds it; the variant that only reads
+`get_block_proposal_txs_ids` (the seeded regression) does not. -/
+
+def uTree : Tree :=
+  { parent := fun b => b - 1, num := fun b => b, epoch := fun _ => 0, work := fun _ => 1,
+    nc := fun b => decide (b ≤ 3), ok := fun _ => true }
+
+def uProps : Props :=
+  { own := fun b => if b = 1 then [1] else if b = 3 then [3] else []
+    uncles := fun b => if b = 2 then [[7]] else [] }
+
+def uOps : List Op := [.deliver 1 [], .verify, .deliver 2 [], .verify, .deliver 3 [], .verify]
+
+/-- **own_ids_only_init_differs** (kernel-evaluated): on a three-block chain with one uncle-proposed id the
+incremental view and the rebuilt view both contain the uncle's id 7, the own-ids-only reconstruction loses
+it — after a restart the node would not consider that transaction proposed although a never-crashed node
+does. -/
+theorem own_ids_only_init_differs :
+    (xrun ⟨2, 4⟩ uProps uTree (xinit ⟨2, 4⟩ uProps uTree) uOps).st.tip = 3 ∧
+    7 ∈ (xrun ⟨2, 4⟩ uProps uTree (xinit ⟨2, 4⟩ uProps uTree) uOps).pv.view.set ∧
+    7 ∈ (xrun ⟨2, 4⟩ uProps uTree (xinit ⟨2, 4⟩ uProps uTree) (uOps ++ [.crash])).pv.view.set ∧
+    7 ∈ (initAt ⟨2, 4⟩ uProps uTree 3).view.set ∧
+    7 ∉ (initOwn ⟨2, 4⟩ uProps uTree 3).view.set ∧
+    (initOwn ⟨2, 4⟩ uProps uTree 3).view.set = [1] ∧ (initOwn ⟨2, 4⟩ uProps uTree 3).view.gap = [3] := by
+  decide +kernel
+
+/-- non-vacuity of `proposal_view_eq_window_every_state` / `init_eq_incremental` /
+`restart_view_eq_at_every_commit`: the witness state is reachable, the window is admissible, its view is
+not empty; the generated consensus default window is admissible too -/
+example : XReachable ⟨2, 4⟩ uProps uTree (xrun ⟨2, 4⟩ uProps uTree (xinit ⟨2, 4⟩ uProps uTree) uOps) ∧
+    WinOk ⟨2, 4⟩ ∧ WinOk defaultWin ∧
+    (xrun ⟨2, 4⟩ uProps uTree (xinit ⟨2, 4⟩ uProps uTree) uOps).pv.view.gap = [3] :=
+  ⟨⟨uOps, rfl⟩, ⟨by decide, by decide⟩, ⟨by decide, by decide⟩, by decide +kernel⟩
+
+/-- a reorganisation with uncles on both branches, then a crash: chain 1 ← 2 (uncle id 7) is replaced by
+4 ← 5 ← 6 (block 5 embeds an uncle with id 9); incremental (remove detached rows, insert attached, reload,
+finalize) and rebuilt views agree, and the detached branch's uncle id is gone -/
+def rTree : Tree :=
+  { parent := fun b => if b = 4 then 0 else b - 1, num := fun b => if b ≥ 4 then b - 3 else b,
+    epoch := fun _ => 0, work := fun _ => 1, nc := fun b => decide (b ≤ 6), ok := fun _ => true }
+
+def rProps : Props :=
+  { own := fun b => [b]
+    uncles := fun b => if b = 2 then [[7]] else if b = 5 then [[9], [5]] else [] }
+
+def rOps : List Op :=
+  [.deliver 1 [], .verify, .deliver 2 [], .verify, .deliver 4 [], .verify, .deliver 5 [], .verify,
+   .deliver 6 [], .verify]
+
+example : (xrun ⟨2, 4⟩ rProps rTree (xinit ⟨2, 4⟩ rProps rTree) rOps).st.tip = 6 ∧
+    (xrun ⟨2, 4⟩ rProps rTree (xinit ⟨2, 4⟩ rProps rTree) rOps).pv.chain = [[], [4], [5, 9, 5], [6]] ∧
+    (xrun ⟨2, 4⟩ rProps rTree (xinit ⟨2, 4⟩ rProps rTree) rOps).pv.view.set = [5, 9, 5, 4] ∧
+    (initAt ⟨2, 4⟩ rProps rTree 6).view.set = [5, 9, 5, 4] ∧
+    (initAt ⟨2, 4⟩ rProps rTree 6).view.gap = [6] ∧
+    7 ∉ (xrun ⟨2, 4⟩ rProps rTree (xinit ⟨2, 4⟩ rProps rTree) rOps).pv.view.set := by
+  decide +kernel
+
+/-- non-vacuity of `recovered_view_eq_never_crashed` and of `recovered_state_eq_never_crashed_partial`'s
+conclusion: the history that dies right after `insert_block(6)` — the tip is still 2 (4 and 5 carry an ext,
+6 is stored without ext: its verification would reorganise the chain) — restarts (the table is rebuilt for the
+chain 1 ← 2 with the uncle id 7, the scan re-delivers 6) and verifies 6 (the reorganisation happens AFTER the
+restart: rows 1, 2 removed, 4, 5, 6 inserted) ends on the same tip and view as the crash-free one -/
+example :
+    let crashed := xrun ⟨2, 4⟩ rProps rTree (xinit ⟨2, 4⟩ rProps rTree)
+      (rOps.take 9 ++ [.crash] ++ restartOps rTree 1800 [1, 4, 2, 5, 6] (run rTree (init rTree) (rOps.take 9)) ++ [.verify])
+    (run rTree (init rTree) (rOps.take 9)).tip = 2 ∧
+    crashed.st.tip = 6 ∧ Quiescent crashed.st ∧ crashed.pv.view.set = [5, 9, 5, 4] ∧ crashed.pv.view.gap = [6] := by
+  decide +kernel
+
+/-- the window constants the witnesses use are the ones regenerated for C20 from `spec/src/consensus.rs` -/
+example : defaultWin = ⟨Gen.Window.W_CLOSE, Gen.Window.W_FAR⟩ := rfl
+
+end RestartView
 
 /-! ## The scan window of the source is the modelled one (regenerated expression shapes)
 
